@@ -840,6 +840,14 @@ class SymEval:
         uid = self._new_uid()
         t = ("call", uid, f, args, kwargs)
         self._effect("call", e, t, st)
+        # a call that receives the instance may modify its fields: forget what is known about them
+        passes_self = (f[0] == "attr" and f[1] == ("self",)) or ("self",) in args or any(v == ("self",) for _, v in kwargs)
+        if passes_self and not (f[0] == "builtin" and f[1] in ("getattr", "hasattr", "isinstance", "len", "str", "repr", "id", "type")):
+            for k in list(st.env):
+                if k.startswith("self.") and k[5:] not in self.frozen_fields:
+                    if f == ("builtin", "setattr") and len(args) == 3 and is_const(args[1]) and k != "self." + str(args[1][1]):
+                        continue
+                    st.env[k] = ("havoc", uid, k)
         return t
 
 
